@@ -11,6 +11,7 @@ CONSTANTS
   AuctionImpl = "intended"
   Resolution = "locked"
   MaxRounds = 3
+  ErrKinds <- ErrKindsOne
 INVARIANTS TypeOKC11
 PROPERTIES RoundReturns F2Returns
 CHECK_DEADLOCK FALSE
